@@ -15,6 +15,9 @@ import SupervisorModel.Props.C16
     answers          never_500_partial, log_methods_answer (what IS proved of "never an HTTP 500")
     framing          immediate_content_length, deferred_content_length (F42, fixed)
     group creation   addProcessGroup_answers_partial (F48, F49 fixed: ValueError / OSError -> FAILED), addGroup_table_ok
+    deferred waits   start_onwait_total, stop_onwait_total (decide over the generated state table), deferred_wait_completes,
+                     deferred_wait_pending_only_while_moving, onwaitCb_completes, deferred_single_completes
+    marshalling      answers_never_tuples (decide over the generated return-shape table), marshal_non_tuple, marshal_tuple
     request delivery request_body_fragmentation_invariant, request_body_independent_of_cuts, request_body_roundtrip,
                      request_header_fragmentation_invariant (the answer cannot depend on how the socket cuts the request)
 -/
@@ -606,7 +609,8 @@ theorem log_methods_answer {σ ν : Type} (emb : Bytes → ν) (embT : RpcLog.Ta
     what the *other* method bodies answer above the gate (start/stop/signal bodies: C13;
     reload/add/remove: C15; the info methods), that the value can be marshalled (xmlrpclib; findings
     F37/F38 live there), DeferredXMLRPCResponse and the medusa request/channel plumbing, and that a
-    deferred answer eventually completes (liveness of the process state machine: C01–C04). -/
+    deferred answer eventually completes (liveness of the process state machine: C01–C04; what IS proved of it:
+    `deferred_wait_completes` — the start/stop callbacks answer in every state the process need not move on from). -/
 theorem never_500_partial {σ ν : Type} (tbl : Table (Method σ ν)) (nm : Name) (args : List ν) (s : σ) :
     (resolve tbl nm = .error "UNKNOWN_METHOD" ∧
       ∃ c, faultCode "UNKNOWN_METHOD" = some c ∧ call tbl nm args s = (.fault c, s)) ∨
@@ -926,6 +930,238 @@ example : addProcessGroup true 1 true .already 0 = (.fault 90, 0) := by rfl
 example : addProcessGroup true 1 false .already 0 = (.fault 10, 0) := by rfl
 example : addProcessGroup true 0 true (.raised "ValueError") 0 = (.fault 6, 0) := by rfl
 example : catches ["ValueError"] "UnicodeDecodeError" = true ∧ catches ["OSError"] "ConnectionResetError" = true := by decide
+
+
+/-! ## deferred answers complete: startProcess / stopProcess with wait=True
+
+  `startOnwait` / `stopOnwait` (generated: the whole body of the callback the method returns) are what one
+  poll answers as a function of what it reads of the process.  The theorems quantify over EVERY process
+  state at EVERY poll (the schedule is arbitrary: another client may stop or start the process, the
+  child may die, a kill may fail between two polls). -/
+
+/-- the codes of ProcessStates -/
+def stateCodes : List Int := procStates.map (·.2)
+
+/-- **start_onwait_total.**  In every process state, with or without a spawn error, one poll of the callback of
+    `startProcess(wait=True)` answers True, a fault of the `Faults` table, or NOT_DONE_YET — and NOT_DONE_YET exactly in
+    the state the process must move on from (STARTING, no spawn error).  By `decide` over the whole regenerated
+    state table.  (Seeded change C12-5 listed BACKOFF/EXITED/FATAL instead of "not STARTING/RUNNING": STOPPING,
+    STOPPED and UNKNOWN then answered NOT_DONE_YET for ever.) -/
+theorem start_onwait_total : ∀ se : Bool, ∀ st ∈ stateCodes,
+    waitAnsOk (onwait .start ⟨se, st⟩) = true ∧
+    (onwait .start ⟨se, st⟩ = .again ↔ mustMoveOn .start ⟨se, st⟩ = true) := by decide
+
+/-- **stop_onwait_total.**  The same for `stopProcess(wait=True)`: True in every stopped state, NOT_DONE_YET in every
+    other state (the kill has been sent: reap() or the SIGKILL escalation moves the process on), never anything else. -/
+theorem stop_onwait_total : ∀ se : Bool, ∀ st ∈ stateCodes,
+    waitAnsOk (onwait .stop ⟨se, st⟩) = true ∧
+    (onwait .stop ⟨se, st⟩ = .again ↔ mustMoveOn .stop ⟨se, st⟩ = true) := by decide
+
+/-- the two tables as one statement about any view whose state is one of ProcessStates -/
+theorem onwait_total (kind : WaitKind) (p : PView) (hv : validState p.state = true) :
+    waitAnsOk (onwait kind p) = true ∧ (onwait kind p = .again ↔ mustMoveOn kind p = true) := by
+  have hm : p.state ∈ stateCodes := by
+    simpa [validState, stateCodes] using hv
+  cases p with
+  | mk se st =>
+    cases kind
+    · exact start_onwait_total se st hm
+    · exact stop_onwait_total se st hm
+
+/-- polling stops at the first poll whose answer is not NOT_DONE_YET (any answer function, any schedule) -/
+theorem waitPolls_completes (kind : WaitKind) (sched : Nat → PView) (j : Nat) :
+    ∀ (f k : Nat), j < f → onwait kind (sched (k + j)) ≠ .again →
+      ∃ i, waitPolls kind sched f k = some (onwait kind (sched i), i) ∧ k ≤ i ∧ i ≤ k + j ∧
+        onwait kind (sched i) ≠ .again ∧ ∀ i', k ≤ i' → i' < i → onwait kind (sched i') = .again := by
+  induction j with
+  | zero =>
+    intro f k hf h
+    cases f with
+    | zero => omega
+    | succ f =>
+      refine ⟨k, ?_, Nat.le_refl _, by omega, by simpa using h, ?_⟩
+      · have h' : onwait kind (sched k) ≠ .again := by simpa using h
+        simp [waitPolls, h']
+      · intro i' h1 h2; omega
+  | succ j ih =>
+    intro f k hf h
+    cases f with
+    | zero => omega
+    | succ f =>
+      by_cases h0 : onwait kind (sched k) = .again
+      · have h' : onwait kind (sched (k + 1 + j)) ≠ .again := by
+          have : k + 1 + j = k + (j + 1) := by omega
+          rw [this]; exact h
+        obtain ⟨i, hi, hki, hij, hne, hbefore⟩ := ih f (k + 1) (by omega) h'
+        refine ⟨i, ?_, by omega, by omega, hne, ?_⟩
+        · simp [waitPolls, h0, hi]
+        · intro i' h1 h2
+          by_cases he : i' = k
+          · subst he; exact h0
+          · exact hbefore i' (by omega) h2
+      · refine ⟨k, ?_, Nat.le_refl _, by omega, h0, ?_⟩
+        · simp [waitPolls, h0]
+        · intro i' h1 h2; omega
+
+theorem waitPolls_pending (kind : WaitKind) (sched : Nat → PView) :
+    ∀ (f k : Nat), waitPolls kind sched f k = none → ∀ i, k ≤ i → i < k + f → onwait kind (sched i) = .again := by
+  intro f
+  induction f with
+  | zero => intro k _ i h1 h2; omega
+  | succ f ih =>
+    intro k h i h1 h2
+    by_cases h0 : onwait kind (sched k) = .again
+    · simp [waitPolls, h0] at h
+      by_cases he : i = k
+      · subst he; exact h0
+      · exact ih (k + 1) h i (by omega) (by omega)
+    · simp [waitPolls, h0] at h
+
+/-- **deferred_wait_completes.**  For every schedule of what the callback reads — every process state at every poll,
+    spawn error or not, changing arbitrarily between polls —: as soon as the process is, at some poll `j`, in a state
+    it need not move on from (start: anything but STARTING; stop: a stopped state), the call HAS answered, at poll `j`
+    or earlier, with True or a fault of the table; and every poll before the answer saw a state the process must move
+    on from.  "A response that never completes" can therefore only come from a process that stays STARTING (start) or
+    not-stopped (stop) for ever, which is the liveness of the process state machine (C01–C04), not of the RPC layer. -/
+theorem deferred_wait_completes (kind : WaitKind) (sched : Nat → PView)
+    (hv : ∀ k, validState (sched k).state = true)
+    (j f : Nat) (hf : j < f) (hs : mustMoveOn kind (sched j) = false) :
+    ∃ a i, waitPolls kind sched f 0 = some (a, i) ∧ i ≤ j ∧ a = onwait kind (sched i) ∧ a ≠ .again ∧ waitAnsOk a = true ∧
+      mustMoveOn kind (sched i) = false ∧ ∀ i' < i, mustMoveOn kind (sched i') = true := by
+  have hne : onwait kind (sched (0 + j)) ≠ .again := by
+    intro h
+    have := ((onwait_total kind (sched j) (hv j)).2).1 (by simpa using h)
+    rw [hs] at this; exact Bool.noConfusion this
+  obtain ⟨i, hi, _, hij, hne', hbefore⟩ := waitPolls_completes kind sched j f 0 hf hne
+  refine ⟨_, i, hi, by omega, rfl, hne', (onwait_total kind (sched i) (hv i)).1, ?_, ?_⟩
+  · cases hm : mustMoveOn kind (sched i) with
+    | false => rfl
+    | true => exact absurd (((onwait_total kind (sched i) (hv i)).2).2 hm) hne'
+  · intro i' hi'
+    exact ((onwait_total kind (sched i') (hv i')).2).1 (hbefore i' (Nat.zero_le _) hi')
+
+/-- the converse: a call still pending after `f` polls saw a must-move-on state at every one of them -/
+theorem deferred_wait_pending_only_while_moving (kind : WaitKind) (sched : Nat → PView)
+    (hv : ∀ k, validState (sched k).state = true) (f : Nat) (h : waitPolls kind sched f 0 = none) :
+    ∀ k < f, mustMoveOn kind (sched k) = true := by
+  intro k hk
+  exact ((onwait_total kind (sched k) (hv k)).2).1 (waitPolls_pending kind sched f 0 h k (Nat.zero_le _) (by omega))
+
+
+/-! ### the same callback inside `call` / `system.multicall` (`Cb`, `waitCb`, `single`) -/
+
+/-- what `results` (multicall) / the answer (single call) gets for the callback's final answer -/
+def elemOfAns {ν : Type} (vTrue : ν) : WaitAns → Elem ν
+  | .done => .val vTrue
+  | .fault n => (match faultCode n with
+                 | some c => elemOfFault c
+                 | none => elemOfRaised)
+  | _ => elemOfRaised
+
+theorem waitCb_onwait_now {σ ν : Type} (kind : WaitKind) (view : σ → PView) (vTrue : ν) (env : Nat → σ → σ)
+    (f n k : Nat) (s : σ) (h : onwait kind (view s) ≠ .again) :
+    waitCb env (f + 1) k (onwaitCb kind view vTrue (n + 1)) s = some (elemOfAns vTrue (onwait kind (view s)), s, 0) := by
+  simp only [onwaitCb, waitCb]
+  cases ha : onwait kind (view s) with
+  | again => exact absurd ha h
+  | done => simp [ansPoll, elemOfAns]
+  | fault nm =>
+    cases hc : faultCode nm with
+    | none => simp [ansPoll, elemOfAns, hc]
+    | some c => simp [ansPoll, elemOfAns, hc]
+  | other w => simp [ansPoll, elemOfAns]
+
+/-- the `Cb` form of `waitPolls_completes`: the callback is polled in the states `stateAt env k s 0, 1, …` (whatever
+    `env` does to the process between ticks) and answers at the first one whose answer is not NOT_DONE_YET -/
+theorem onwaitCb_completes {σ ν : Type} (kind : WaitKind) (view : σ → PView) (vTrue : ν) (env : Nat → σ → σ) (j : Nat) :
+    ∀ (f n k : Nat) (s : σ), j < f → j < n → onwait kind (view (stateAt env k s j)) ≠ .again →
+      ∃ t, t ≤ j ∧ waitCb env f k (onwaitCb kind view vTrue n) s =
+        some (elemOfAns vTrue (onwait kind (view (stateAt env k s t))), stateAt env k s t, t) := by
+  induction j with
+  | zero =>
+    intro f n k s hf hn h
+    cases f with
+    | zero => omega
+    | succ f =>
+      cases n with
+      | zero => omega
+      | succ n => exact ⟨0, Nat.le_refl _, waitCb_onwait_now kind view vTrue env f n k s h⟩
+  | succ j ih =>
+    intro f n k s hf hn h
+    cases f with
+    | zero => omega
+    | succ f =>
+      cases n with
+      | zero => omega
+      | succ n =>
+        by_cases h0 : onwait kind (view s) = .again
+        · obtain ⟨t, ht, hw⟩ := ih f n (k + 1) (env k s) (by omega) (by omega) h
+          refine ⟨t + 1, by omega, ?_⟩
+          simp only [onwaitCb, waitCb, h0, ansPoll]
+          rw [hw]
+          rfl
+        · exact ⟨0, Nat.zero_le _, waitCb_onwait_now kind view vTrue env f n k s h0⟩
+
+/-- a start/stop call that answers later completes — on its own, and by `multicall_sequential` as an element of a
+    `system.multicall` — within `j+1` further ticks, where `j` is the first poll at which the process is in a state
+    it need not move on from -/
+theorem deferred_single_completes {σ ν : Type} (tbl : Table (Method σ ν)) (env : Nat → σ → σ)
+    (kind : WaitKind) (view : σ → PView) (vTrue : ν) (n f k j : Nat) (c : MCall ν) (s s' : σ)
+    (hc : callOne tbl c s = (.deferred (onwaitCb kind view vTrue n), s'))
+    (hf : j + 1 < f) (hn : j < n)
+    (hs : onwait kind (view (stateAt env (k + 1) (env k s') j)) ≠ .again) :
+    ∃ e s'' t, single tbl env f k c s = some (e, s'', t) ∧ t ≤ j + 1 := by
+  obtain ⟨t, ht, hw⟩ := onwaitCb_completes kind view vTrue env j (f - 1) n (k + 1) (env k s') (by omega) hn hs
+  refine ⟨elemOfAns vTrue (onwait kind (view (stateAt env (k + 1) (env k s') t))), stateAt env (k + 1) (env k s') t, t + 1, ?_, by omega⟩
+  simp only [single, hc]
+  rw [hw]
+  rfl
+
+/-! ## marshalling: what `xmlrpc_marshal` does with the value a method returns -/
+
+/-- a value that is not a tuple is wrapped and answered as itself -/
+theorem marshal_non_tuple (sh : PyShape) (h : sh.isTuple = false) : marshalValue sh = .value := by
+  simp [marshalValue, marshal_g0, marshal_g1, h]
+
+/-- a tuple is taken for the parameter tuple: a 1-tuple answers its element, any other length trips the assertion of
+    `xmlrpclib.dumps(..., methodresponse=True)` — the catch-all of continue_request turns that into an HTTP 500 -/
+theorem marshal_tuple (n : Nat) : marshalValue (.tuple n) = if n = 1 then .element else .assertion := by
+  by_cases h : n = 1
+  · subst h; simp [marshalValue, marshal_g0, marshal_g1, PyShape.isTuple]
+  · simp [marshalValue, marshal_g0, marshal_g1, PyShape.isTuple, h]
+
+/-- … while the same value inside `system.multicall` is one element of the result list (an array): a tuple answer is
+    exactly where the single call and the multicall element part (seeded change C12-6) -/
+theorem tuple_answer_parts_single_from_multicall (n : Nat) (h : n ≠ 1) :
+    marshalValue (.tuple n) = .assertion ∧ marshalElement (.tuple n) = .value := by
+  exact ⟨by rw [marshal_tuple]; simp [h], rfl⟩
+
+example : waitPolls .start (fun k => [⟨false, 10⟩, ⟨false, 40⟩].getD k ⟨false, 0⟩) 5 0 = some (.fault "ABNORMAL_TERMINATION", 1) := by decide
+example : waitPolls .start (fun _ => ⟨false, 10⟩) 5 0 = none := by decide
+example : waitPolls .stop (fun k => [⟨false, 40⟩, ⟨false, 40⟩].getD k ⟨false, 1000⟩) 5 0 = some (.done, 2) := by decide
+example : marshalValue (.tuple 3) = .assertion ∧ marshalValue .list = .value := by decide
+
+/-- **answers_never_tuples.**  No `return` expression that can reach `xmlrpc_marshal` as the answer of a public method
+    of SupervisorNamespaceRPCInterface — followed through the helpers whose result is handed on (`_tailProcessLog`,
+    `_readProcessLog`, `tailFile`, `_decode_log`, `make_allfunc`) and through the deferred callbacks (`onwait`,
+    `allfunc`, `clearall`) — is a tuple; every helper that is handed on has its own row; every public attribute has a
+    row.  By `decide` over the regenerated table.  With `marshal_non_tuple`: every such answer is marshalled as itself,
+    the same in a single call and as a multicall element. -/
+theorem answers_never_tuples :
+    (∀ r ∈ answerShapes, ∀ sh ∈ r.2, retNotTuple sh = true) ∧
+    (∀ r ∈ answerShapes, ∀ sh ∈ r.2, (match sh with | .via f => (answerShapes.lookup f).isSome | _ => true) = true) ∧
+    (∀ g ∈ gateTable, (answerShapes.lookup g.1).isSome = true) := by
+  decide
+
+/-- the states the two callbacks wait in, by name -/
+theorem must_move_on_states :
+    (procStates.filter fun p => mustMoveOn .start ⟨false, p.2⟩).map (·.1) = ["STARTING"] ∧
+    (procStates.filter fun p => mustMoveOn .start ⟨true, p.2⟩).map (·.1) = [] ∧
+    (∀ se : Bool, (procStates.filter fun p => mustMoveOn .stop ⟨se, p.2⟩).map (·.1) = ["STARTING", "RUNNING", "BACKOFF", "STOPPING"]) := by
+  decide
+
+example : ∃ r ∈ answerShapes, r.1 = "_tailProcessLog" ∧ RetShape.list ∈ r.2 := by decide
+example : validState 40 = true ∧ validState 41 = false := by decide
 
 -- non-vacuity
 def demoTable : Table (Method Nat Nat) := fun ns =>
